@@ -6,10 +6,10 @@ From Coq Require Import NArith ZArith.
     bound).  A component name is a byte string without '/', a path is the list of
     its components (fact F2 of DESIGN.md: backends only see canonical paths,
     and [Path/StrProofs.v] relates canonical strings and component lists). *)
-Definition byte := N.
-Definition bytes := list N.
-Definition name := list N.
-Definition path := list name.
+Notation byte := N (only parsing).
+Notation bytes := (list N) (only parsing).
+Notation name := (list N) (only parsing).
+Notation path := (list (list N)) (only parsing).
 
 Definition slashN : N := 47.
 Definition dotN : N := 46.
